@@ -282,7 +282,7 @@ def sigValid (verify : Bytes → Bytes → Bytes → Bool) (ver : Bytes) (j : JV
     | some (.obj ks) =>
       match mapGet ks kid with
       | some (.str s) =>
-        match Hash.base64BytesDecode s with
+        match B64.decode s with
         | some sig => verify pk payload sig
         | none => false
       | _ => false
